@@ -41,7 +41,7 @@ ASSUMES = [
     "'not delayed' for the second instance: a run of instance B that finds fewer than its own limit of B-runs active "
     "enters its body at its start instant (virtual time), whatever instance A's runs are doing",
 ]
-OUTSIDE = ["limits > 3, more than 4+2 runs", "runs that fail or are cancelled while queued on the semaphore",
+OUTSIDE = ["limits > 3, more than 4+2 runs", "runs that fail while queued on the semaphore (cancellation: ob_cancel_while_queued)",
            "other runtimes (DBOS, server decorators)", "id() reuse after a workflow instance is garbage collected"]
 
 
@@ -219,3 +219,91 @@ def ob_whole_runs(n: int, s1: int, s2: int, h0: int, h1: int) -> bool:
     post: _
     """
     return _whole_scenario([_lim(n), 1], [0, 0, 1], [0, s1, s2], [h0, h1, 0])
+
+
+# --------------------------------------------------------------------------------------------------------------
+# a run cancelled while it is still QUEUED for a slot must not change the limit
+# --------------------------------------------------------------------------------------------------------------
+
+
+def _cancel_scenario(limit: int, starts, holds, victim: int, cancel_at: int) -> bool:
+    """4 runs of one instance through the REAL BasicRuntime._maybe_acquire_max_concurrent_runs; run ``victim`` is cancelled at
+    ``cancel_at`` (possibly while queued on the semaphore, while holding a slot, before it started or after it finished)."""
+    n = len(starts)
+    loop = SymLoop()
+    obs = _Obs(n)
+
+    async def main():
+        rt = BasicRuntime()
+        wf = types.SimpleNamespace(_num_concurrent_runs=limit)
+
+        async def one(i):
+            await asyncio.sleep(starts[i])
+            async with rt._maybe_acquire_max_concurrent_runs(wf, "r%d" % i):
+                obs.inside[0] += 1
+                if obs.inside[0] > obs.peak[0]:
+                    obs.peak[0] = obs.inside[0]
+                obs.entered[i] = loop.time()
+                try:
+                    await asyncio.sleep(holds[i])
+                finally:
+                    obs.inside[0] -= 1
+                obs.done[i] = True
+
+        tasks = [asyncio.ensure_future(one(i)) for i in range(n)]
+
+        async def killer():
+            await asyncio.sleep(cancel_at)
+            tasks[victim].cancel()
+
+        k = asyncio.ensure_future(killer())
+        res = await asyncio.gather(*tasks, return_exceptions=True)
+        await k
+        reraise_foreign(res)
+        for i, r in enumerate(res):
+            if isinstance(r, BaseException) and not (i == victim and isinstance(r, asyncio.CancelledError)):
+                raise r
+        # afterwards the instance still admits exactly `limit` runs at once: probe with limit+1 fresh runs
+        probe = _Obs(limit + 1)
+
+        async def late(i):
+            async with rt._maybe_acquire_max_concurrent_runs(wf, "p%d" % i):
+                probe.inside[0] += 1
+                if probe.inside[0] > probe.peak[0]:
+                    probe.peak[0] = probe.inside[0]
+                try:
+                    await asyncio.sleep(1)
+                finally:
+                    probe.inside[0] -= 1
+                probe.done[i] = True
+
+        await asyncio.gather(*[asyncio.ensure_future(late(i)) for i in range(limit + 1)])
+        obs.probe_peak = probe.peak[0]
+        obs.probe_done = all(probe.done)
+
+    loop.run_until_complete(main())
+    if obs.peak[0] > limit or obs.probe_peak != limit or not obs.probe_done:
+        return False
+    for i in range(n):
+        if i != victim and not obs.done[i]:
+            return False  # a run that was not cancelled never executed
+    return True
+
+
+@obligation(quick=150, thorough=400, partitions_quick=[f"n == {k} and victim == {v}" for k in (1, 2) for v in (1, 2, 3)],
+            partitions_thorough=[f"n == {k} and victim == {v} and cancel_at == {c}" for k in (1, 2, 3) for v in (1, 2, 3) for c in range(4)],
+            what="a run cancelled at a symbolic instant (before it started, while QUEUED for a slot, while running, after it finished) never changes "
+                 "the limit: peak concurrency stays <= N during the scenario and is exactly N for N+1 fresh runs afterwards; the other runs all execute",
+            bounds={"limit": "1..2 (thorough 1..3)", "runs": 4, "starts": "0..1", "holds": "1..2", "cancel instant": "0..3"})
+def ob_cancel_while_queued(n: int, s1: int, s2: int, s3: int, h0: int, h1: int, victim: int, cancel_at: int) -> bool:
+    """
+    pre: 1 <= n <= NCMAX and 0 <= s1 <= 1 and 0 <= s2 <= 1 and 0 <= s3 <= 1 and 1 <= h0 <= 2 and 1 <= h1 <= 2
+    pre: 1 <= victim <= 3 and 0 <= cancel_at <= 3
+    post: _
+    """
+    n = 1 if n == 1 else (2 if n == 2 else 3)
+    victim = 1 if victim == 1 else (2 if victim == 2 else 3)
+    return _cancel_scenario(n, [0, s1, s2, s3], [h0, h1, 1, 1], victim, cancel_at)
+
+
+NCMAX = B(2, 3)
